@@ -24,23 +24,27 @@ ap.add_argument('--count', type=int, default=1)
 ap.add_argument('--tier', default='quick')
 ap.add_argument('--seed', default='1')
 ap.add_argument('--scala', action='store_true')
+ap.add_argument('--shell', help='run this shell command (VERIF_REPO set to the mutated copy) instead of the check')
+ap.add_argument('--replay', help='replay one case file against the mutated copy instead of running the tier')
 a = ap.parse_args()
 
 VERIF = os.path.dirname(os.path.dirname(os.path.abspath(__file__)))
 dst = f'/tmp/vmut-{os.getpid()}'
 os.makedirs(dst)
 try:
-    need_scala = a.scala or (a.file and a.file.startswith('hail/hail')) or bool(a.patch and 'hail/hail/src' in open(a.patch).read())
+    need_scala = a.scala or (a.file and a.file.startswith('hail/hail')) or bool(a.patch and ' b/hail/hail/' in open(a.patch).read())
     for d in ('hail/python', 'gear', 'batch', 'auth', 'ci', 'web_common'):
         os.makedirs(os.path.dirname(os.path.join(dst, d)) or dst, exist_ok=True)
         shutil.copytree(os.path.join('/repo', d), os.path.join(dst, d), symlinks=True,
                         ignore=shutil.ignore_patterns('__pycache__', 'node_modules'))
     shutil.copy('/repo/build.yaml', os.path.join(dst, 'build.yaml'))
-    if need_scala:
-        shutil.copytree('/repo/hail/hail/src', os.path.join(dst, 'hail/hail/src'), symlinks=True)
-    else:
-        os.makedirs(os.path.join(dst, 'hail/hail'), exist_ok=True)
-        os.symlink('/repo/hail/hail/src', os.path.join(dst, 'hail/hail/src'))
+    os.makedirs(os.path.join(dst, 'hail/hail'), exist_ok=True)
+    for ent in os.listdir('/repo/hail/hail'):
+        srcp, dstp = os.path.join('/repo/hail/hail', ent), os.path.join(dst, 'hail/hail', ent)
+        if need_scala and os.path.isdir(srcp) and ent not in ('build', 'out', '.bloop', '.metals'):
+            shutil.copytree(srcp, dstp, symlinks=True)
+        else:
+            os.symlink(srcp, dstp)
     if a.patch:
         r = subprocess.run(['git', 'apply', '--unsafe-paths', '--directory', dst, os.path.abspath(a.patch)], cwd='/',
                            capture_output=True, text=True)
@@ -58,7 +62,10 @@ try:
             sys.exit(2)
         open(p, 'w').write(s.replace(a.old, a.new))
     env = dict(os.environ, VERIF_REPO=dst, VERIF_SEED=a.seed)
-    r = subprocess.run([os.path.join(VERIF, 'check'), a.check, '--tier', a.tier, '--no-evidence'], env=env,
+    if a.shell:
+        sys.exit(subprocess.run(a.shell, shell=True, env=env, cwd=VERIF).returncode)
+    args = ['--replay', os.path.abspath(a.replay)] if a.replay else ['--tier', a.tier, '--no-evidence']
+    r = subprocess.run([os.path.join(VERIF, 'check'), a.check] + args, env=env,
                        capture_output=True, text=True)
     out = (r.stdout + r.stderr).strip().splitlines()
     print('\n'.join(out[-8:]))
